@@ -25,18 +25,46 @@ BIN = os.path.join(ROOT, 'build')
 
 
 def run_gen(engine, prop, seed, start, step, count, env_extra=None, cwd=None):
-    cmd = [os.path.join(BIN, engine), 'gen', '--prop', prop, '--tier', 'quick', '--seed', str(seed),
-           '--start', str(start), '--step', str(step), '--count', str(count)]
+    """Run `count` indices start, start+step, ... like the supervisor does: a worker that retires (a simulated _exit inside a
+    signal handler, a CPU-budget abort) or dies (a recorded known finding such as C02's deep nesting) is replaced by a fresh one
+    that continues behind the index it had started; that index is recorded as RETIRED-after-result or CRASH."""
     env = dict(os.environ)
     if env_extra:
         env.update(env_extra)
-    p = subprocess.run(cmd, stdout=subprocess.PIPE, stderr=subprocess.DEVNULL, env=env, cwd=cwd or ROOT)
     out = {}
-    for line in p.stdout.decode('utf-8', 'replace').splitlines():
-        if line.startswith('R '):
-            _, idx, fp, tsig, nt, verdict = line.split(' ', 5)
-            out[int(idx)] = (fp, tsig, nt, verdict)
-    return p.returncode, out
+    rc_all = 0
+    cur = start
+    remaining = count
+    guard = 0
+    while remaining > 0 and guard < 5000:
+        guard += 1
+        cmd = [os.path.join(BIN, engine), 'gen', '--prop', prop, '--tier', 'quick', '--seed', str(seed),
+               '--start', str(cur), '--step', str(step), '--count', str(remaining)]
+        p = subprocess.run(cmd, stdout=subprocess.PIPE, stderr=subprocess.DEVNULL, env=env, cwd=cwd or ROOT)
+        started = None
+        retire_next = None
+        done = 0
+        for line in p.stdout.decode('utf-8', 'replace').splitlines():
+            if line.startswith('S '):
+                started = int(line[2:])
+            elif line.startswith('R '):
+                _, idx, fp, tsig, nt, verdict = line.split(' ', 5)
+                out[int(idx)] = (fp, tsig, nt, verdict)
+                done += 1
+            elif line.startswith('RETIRE '):
+                retire_next = int(line.split()[1])
+        if retire_next is not None:
+            remaining -= (retire_next - cur) // step
+            cur = retire_next
+            continue
+        if p.returncode != 0 and started is not None and started not in out:
+            out[started] = ('-', '-', '1', 'CRASH rc=%d' % p.returncode)       # deterministic crashes compare equal
+            remaining -= (started - cur) // step + 1
+            cur = started + step
+            continue
+        rc_all = p.returncode
+        break
+    return rc_all, out
 
 
 def variant(engine, prop, seed, n, kind, jobs_inner=4):
